@@ -183,16 +183,25 @@ def main_c13(tier, seed):
     rep = Report("C13", tier, seed)
     standard_proof_phase(rep, "C13", KNN_FILES + ["Props/C13"])
     rng = random.Random(seed + 13)
-    N = 300 if tier == "quick" else 24000
+    N = 400 if tier == "quick" else 24000
     terms, expect, descs = [], [], []
     nviol = 0
-    flavours = dict(sup=0, sup_force=0, unsup=0)
+    flavours = dict(sup=0, sup_force=0, unsup=0, unsup_packed=0)
     for idx in range(N):
-        it = gen_kinst(rng, nmin=3, nmax=10 if tier == "quick" else 15, labelled=True)
-        n = it.n
-        k = rng.randint(1, min(4, n - 1))
-        flavour = ("sup", "sup_force", "unsup")[idx % 3]
+        flavour = ("sup", "sup_force", "unsup", "unsup_packed")[idx % 4]
+        packed = flavour == "unsup_packed"
         flavours[flavour] += 1
+        if packed:
+            # larger sets, small k, all densities within 1 of each other (see below): every start cost density-1 lies below
+            # every density, so late roots sit next to finished samples whose cost is a fraction below the root's density
+            flavour = "unsup"
+            it = gen_kinst(rng, nmin=8, nmax=16, labelled=True)
+            n = it.n
+            k = rng.randint(1, 2)
+        else:
+            it = gen_kinst(rng, nmin=3, nmax=10 if tier == "quick" else 15, labelled=True)
+            n = it.n
+            k = rng.randint(1, min(4, n - 1))
         d = it.desc(); d["k"] = k; d["flavour"] = flavour
         args = arcs_args(it)
         try:
@@ -212,6 +221,15 @@ def main_c13(tier, seed):
             before = knn_state(sg)
             if any(v != v for v in before["dens"]):
                 continue
+            if packed or idx % 8 < 2:
+                # densities packed (almost) within 1 of each other - what a distant outlier does to the [1, 1000] normalisation
+                base = rng.uniform(1.0, 990.0)
+                step, lev = (0.009, 100) if packed else (rng.choice([0.1, 0.25, 0.4]), rng.randint(2, 5))
+                for nd in sg.nodes:
+                    nd.density = base + step * rng.randrange(lev)
+                    nd.cost = nd.density - 1           # as calculate_pdf leaves it
+                before = knn_state(sg)
+                d["densities_overridden"] = before["dens"]
             if flavour == "unsup":
                 opf._clustering(k)
                 after = knn_state(sg)
@@ -340,7 +358,7 @@ def main_c13(tier, seed):
     rep.corr["clustering"] = dict(cases=len(terms), disagreements=None if bad is None else len(bad), flavours=flavours, end_to_end_fits=fit_ok)
     rep.extra["oracle_violations"] = nviol
     rep.samples = descs[:2]
-    rep.rule = "sample sets as in C12 with labels (2-3 classes), k in 1..4; three flavours in rotation (KNN-supervised with/without forced prototypes, unsupervised with arcs built for kmax >= k); all cases non-trivial (n >= 3)"
+    rep.rule = "sample sets as in C12 with labels (2-3 classes), k in 1..4; four flavours in rotation (KNN-supervised with/without forced prototypes, unsupervised with arcs built for kmax >= k, unsupervised on 8-16 samples with densities packed within 1); all cases non-trivial (n >= 3)"
     rep.assumptions = ASSUME + ["the model receives the implementation's own densities/costs/adjacency (rank-encoded) as input: C13 is about the clustering step"]
     return rep.finish()
 
